@@ -147,6 +147,43 @@ func feedsTableProduct(bo *ssa.BinOp) bool {
 	return true
 }
 
+// liftToCallers: goal (over the parameters of the unexported function fn) holds at every static call
+// of fn in the module; false when fn is exported, escapes as a value, or has no caller.
+func liftToCallers(c *Ctx, fn *ssa.Function, P *Prover, goal Poly) bool {
+	if fn.Object() == nil || fn.Object().Exported() || fn.Parent() != nil {
+		return false
+	}
+	n := 0
+	for _, caller := range c.Funcs {
+		var CP *Prover
+		for _, b := range caller.Blocks {
+			for _, in := range b.Instrs {
+				for _, op := range in.Operands(nil) {
+					if *op == ssa.Value(fn) {
+						call, ok := in.(*ssa.Call)
+						if !ok || call.Call.StaticCallee() != fn {
+							return false // the function is used as a value
+						}
+					}
+				}
+				call, ok := in.(*ssa.Call)
+				if !ok || call.Call.StaticCallee() != fn {
+					continue
+				}
+				if CP == nil {
+					CP = NewProver(c, caller)
+				}
+				t, ok := translatePoly(P, goal, fn, CP, call.Call.Args)
+				if !ok || !CP.Prove(t, b) {
+					return false
+				}
+				n++
+			}
+		}
+	}
+	return n > 0
+}
+
 func tableRows(c *Ctx) [][]*big.Int {
 	small, _, _ := constTable(c, "comb", "smallEntries")
 	return small
@@ -700,8 +737,11 @@ func ruleOvf(c *Ctx, pkgRel string, tableGuarded map[string]bool) *RuleResult {
 				how := ""
 				switch {
 				case bo.Op == token.SUB:
-					if P.Prove(P.poly(bo.Y).add(P.poly(bo.X), -1), b) {
+					goal := P.poly(bo.Y).add(P.poly(bo.X), -1)
+					if P.Prove(goal, b) {
 						how = "subtrahend <= minuend"
+					} else if liftToCallers(c, fn, P, goal) {
+						how = "subtrahend <= minuend at every call of this unexported helper"
 					}
 				case tableGuarded[name] && bo.Op == token.MUL && isTableProduct(bo):
 					how = "table-guarded product (TABLE)"
